@@ -27,7 +27,11 @@ STRING_VARS = {
     "platform_machine": ["x86_64", "arm64", "aarch64", "x86"],
     "implementation_name": ["cpython", "pypy"],
     "platform_system": ["Linux", "Windows", "Darwin"],
+    "platform_python_implementation": ["CPython", "PyPy"],
+    "implementation_version": ["3.8.1", "3.10.0", "3.9"],
 }
+# platform_release is version-like for the library but real values often are not PEP 440 versions
+RELEASE_VALUES = ["5.4", "5.10", "5.10.0", "6", "6.1", "5.10.0-generic", "5.15.0-91-generic"]
 EXTRA_VALUES = ["foo", "bar", "Foo_Bar", "foo-bar", "foo.bar", "baz"]
 VERSION_VARS = ("python_version", "python_full_version")
 # (major, minor) bases; every run picks a small sub-pool so that literals collide
@@ -118,7 +122,14 @@ def spell_version(rng, name, base, exact_micro=None):
     return rng.choice(opts)
 
 
+def gen_release_atom(rng, cfg):
+    op = rng.choice([">=", "<", "==", "!=", ">", "<="])
+    return atom("platform_release", op, rng.choice(cfg["releases"]), rng.random() < cfg["p_flip"])
+
+
 def gen_version_atom(rng, cfg):
+    if cfg["releases"] and rng.random() < cfg["p_release"]:
+        return gen_release_atom(rng, cfg)
     name = rng.choice(cfg["version_vars"])
     base = rng.choice(cfg["bases"])
     roll = rng.random()
@@ -364,6 +375,11 @@ def gen_config(rng, fault_class=None):
         "version_vars": version_vars,
         "string_vars": string_vars,
         "extras": rng.sample(EXTRA_VALUES, k=rng.choice([2, 3, 4])),
+        "releases": rng.sample(RELEASE_VALUES, k=rng.choice([2, 3, 4])) if rng.random() < 0.3 else [],
+        "p_release": rng.choice([0.15, 0.4, 1.0]),
+        "p_combo": rng.choice([0.35, 0.5, 0.5, 0.7]),
+        "p_reparse": rng.choice([0.05, 0.12, 0.12, 0.3]),
+        "roundtrip": rng.random() < 0.25,
         "order_ops": order_ops,
         "p_flip": rng.choice([0.0, 0.15, 0.3, 0.5]),
         "p_invalid": rng.choice([0.0, 0.0, 0.3]),
@@ -415,6 +431,7 @@ def gen_script(rng, cfg):
     while len(ops) < n:
         live = [i for i in producers if i not in dropped]
         roll = rng.random()
+        base = cfg["p_garbage"] + cfg["p_dropgc"]
         if roll < cfg["p_garbage"]:
             producers.append(len(ops))
             ops.append(["text", rng.choice(GARBAGE_TEXTS)])
@@ -425,13 +442,17 @@ def gen_script(rng, cfg):
                 ops.append(["drop", i])
             else:
                 ops.append(["gc"])
-        elif roll < 0.62 and len(live) >= 2:
+        elif roll < base + cfg["p_combo"] and len(live) >= 2:
             i = rng.choice(live)
             # prefer recent results as the other operand so that chains build up
             j = live[-1] if rng.random() < 0.4 else rng.choice(live)
             producers.append(len(ops))
             ops.append([rng.choice(["and", "or"]), i, j])
-        elif roll < 0.74 and live:
+            if cfg["roundtrip"] and rng.random() < 0.6 and len(ops) < n:
+                # lock-file round trip: render the result, parse it back, carry on with the re-parsed marker
+                producers.append(len(ops))
+                ops.append(["reparse", len(ops) - 1])
+        elif roll < base + cfg["p_combo"] + cfg["p_reparse"] and live:
             producers.append(len(ops))
             ops.append(["reparse", rng.choice(live)])
         else:
@@ -600,6 +621,11 @@ def make_envs(steps, cap=40):
             if cand not in extras:
                 extras.append(cand)
     extras.append("unrelated")
+    releases = []
+    for v in lits.get("platform_release", []):
+        if v not in releases:
+            releases.append(v)
+    releases += [r for r in ("5.10.0", "4.19.0", "6.5.0-generic") if r not in releases]
     n = min(cap, max(len(vpts), 12))
     if len(vpts) > n:
         # keep an evenly spread subset, deterministic
@@ -611,10 +637,8 @@ def make_envs(steps, cap=40):
         env = {
             "python_full_version": f"{major}.{minor}.{micro}",
             "python_version": f"{major}.{minor}",
-            "platform_release": "5.10.0",
+            "platform_release": releases[(i * 5 + 1) % len(releases)],
             "platform_version": "#1 SMP",
-            "platform_python_implementation": "CPython",
-            "implementation_version": f"{major}.{minor}.{micro}",
         }
         for k, (name, vals) in enumerate(sorted(strings.items())):
             env[name] = vals[(i * (k + 2) + k) % len(vals)]
